@@ -4,6 +4,7 @@ import CssVerif.Lemmas.TokStrItems
 import CssVerif.Lemmas.TokIdentDash
 import CssVerif.Lemmas.TokUriQ
 import CssVerif.Lemmas.TokIdentU
+import CssVerif.Lemmas.TokURange
 /-!
 # Lexeme separation for all token classes (`Lex2`, `render2`, `expectedAll`)
 -/
@@ -66,6 +67,7 @@ inductive Lex2 where
   | identD (n c : Nat) (cs : Cps)          -- IDENT that starts with one or two hyphens
   | uriQ (u r l : Nat) (w1 : Cps) (q : Nat) (its : List SItem) (w2 : Cps)   -- URI, quoted: url( ws? string ws? )
   | identU (u : Nat) (cs : Cps)            -- IDENT that starts with `u` / `U`
+  | urangeI (u h : Nat) (hs : Cps) (h2 : Nat) (hs2 : Cps)   -- UNICODE-RANGE interval `U+0-7F`
 
 def Lex2.text : Lex2 → Cps
   | .old t => t.text
@@ -78,6 +80,7 @@ def Lex2.text : Lex2 → Cps
   | .strI q its => q :: flat its ++ [q]
   | .identD n c cs => dashes n ++ c :: cs
   | .identU u cs => u :: cs
+  | .urangeI u h hs h2 hs2 => u :: 43 :: (h :: hs ++ 45 :: h2 :: hs2)
   | .uriQ u r l w1 q its w2 => u :: r :: l :: 40 :: (w1 ++ (q :: (flat its ++ q :: (w2 ++ [41]))))
 
 def Lex2.typ : Lex2 → String
@@ -91,6 +94,7 @@ def Lex2.typ : Lex2 → String
   | .strI _ _ => "STRING"
   | .identD _ _ _ => "IDENT"
   | .identU _ _ => "IDENT"
+  | .urangeI _ _ _ _ _ => "UNICODE-RANGE"
   | .uriQ _ _ _ _ _ _ _ => "URI"
 
 /-- the expected token value: the text itself, except for strings with escapes (one-pass decoding) -/
@@ -110,6 +114,8 @@ def Lex2.WF : Lex2 → Prop
   | .strI q its => (q = 34 ∨ q = 39) ∧ ∀ i ∈ its, i.WF q
   | .identD n c cs => (n = 1 ∨ n = 2) ∧ inR nameStart c = true ∧ ∀ x ∈ cs, inR identRest x = true
   | .identU u cs => IsU u ∧ ∀ x ∈ cs, inR identRest x = true
+  | .urangeI u h hs h2 hs2 => IsU u ∧ (∀ x ∈ h :: hs, inR hexq x = true) ∧ (h :: hs).length ≤ 6 ∧
+      (∀ x ∈ h2 :: hs2, inR hexOnly x = true) ∧ (h2 :: hs2).length ≤ 6
   | .uriQ u r l w1 q its w2 => IsU u ∧ IsR r ∧ IsL l ∧ (∀ x ∈ w1, isWsC x = true) ∧ (q = 34 ∨ q = 39) ∧
       (∀ i ∈ its, i.WF q) ∧ ∀ x ∈ w2, isWsC x = true
 
@@ -262,6 +268,28 @@ theorem lex2_step (doC : Bool) (t : Lex2) (h : t.WF) (stop : Cps) (hs : Sep stop
     · have hu' : unescTypes.contains "URI" = true := by decide
       have hc : cleanTypes.contains "URI" = true := by decide
       simp only [valueOf, hu', hc, if_true, subS_eq_stringValue, Lex2.value]
+  | urangeI u h0 hs0 h2 hs2 =>
+    obtain ⟨hu, hh, hlen, hh2, hlen2⟩ := h
+    apply loop_step2 doC fuel (u :: 43 :: (h0 :: hs0 ++ 45 :: h2 :: hs2)) stop line col "UNICODE-RANGE" (by simp)
+    · intro c t e; simp only [List.cons.injEq] at e; obtain ⟨rfl, _⟩ := e
+      rcases hu with rfl | rfl <;> decide
+    · have := scan_urange_interval doC u h0 hs0 h2 hs2 stop hu hh hlen hh2 hlen2 hs
+      have hl : (u :: 43 :: (h0 :: hs0 ++ 45 :: h2 :: hs2)).length =
+          (h0 :: hs0).length + 2 + (1 + (h2 :: hs2).length) := by
+        simp only [List.length_cons, List.length_append]; omega
+      rw [hl]
+      simpa [List.append_assoc] using this
+    · apply valueOf_unesc _ _ _ (by decide) (by decide)
+      intro x hx
+      simp only [List.mem_cons, List.mem_append] at hx
+      rcases hx with rfl | rfl | (rfl | hx) | rfl | rfl | hx
+      · rcases hu with rfl | rfl <;> decide
+      · decide
+      · exact ne92_of_inR hexq (by decide) _ (hh _ (by simp))
+      · exact ne92_of_inR hexq (by decide) _ (hh x (List.mem_cons_of_mem _ hx))
+      · decide
+      · exact ne92_of_inR hexOnly (by decide) _ (hh2 _ (by simp))
+      · exact ne92_of_inR hexOnly (by decide) _ (hh2 x (List.mem_cons_of_mem _ hx))
   | identU u cs =>
     obtain ⟨hu, hcs⟩ := h
     apply loop_step2 doC fuel (u :: cs) stop line col "IDENT" (by simp)
@@ -321,6 +349,9 @@ theorem lex2_head (t : Lex2) (h : t.WF) : ∃ c w, t.text = c :: w ∧ inR lexHe
     rcases h.1 with rfl | rfl <;> decide
   | identU u cs =>
     refine ⟨u, cs, rfl, ?_⟩
+    rcases h.1 with rfl | rfl <;> decide
+  | urangeI u h0 hs0 h2 hs2 =>
+    refine ⟨u, 43 :: (h0 :: hs0 ++ 45 :: h2 :: hs2), rfl, ?_⟩
     rcases h.1 with rfl | rfl <;> decide
   | identD n c cs =>
     rcases h.1 with rfl | rfl
